@@ -51,16 +51,6 @@ end TsRs
 namespace TsRs
 open Ts Tree Builtin De
 
-/-- the items the completeness theorem covers: tagged (no `untagged`), field types readable by the model and mentioning only the
-item's own type parameters, distinct variant keys -/
-def itemDeOk (cfg : Cfg) (it : Item) : Bool :=
-  !it.attr.untagged
-  && it.fields.all (fieldTyOkP cfg (it.generics.map (·.name)))
-  && it.variants.all (fun v => !v.attr.untagged && v.fields.all (fieldTyOkP cfg (it.generics.map (·.name))))
-  && decide (((it.variants.filter fun v => !v.attr.skip).map (Serde.variantKey cfg it.attr.renameAll)).Nodup)
-
-def deFragB (cfg : Cfg) (env : Env) : Bool := Tree.fragB cfg env && env.all (itemDeOk cfg)
-
 abbrev accNf (cfg : Cfg) (env : Env) (f : Nat) : Str → List RTy → JVal → Nat := fun id args j => De.accItem cfg env f id args j
 
 theorem nameTyB_map_some {α} {o : Option α} {g : α → Ts} {T : Ts} (h : o.map g = some T) : ∃ x, o = some x ∧ T = g x := by
